@@ -7,7 +7,7 @@ Invariant INV(self):  self.inv.inv is self, self.inv is another object, and
 """
 import z3
 
-from pyvc.values import HeapClass, INT, VAL, REF, SRef, SVal, SInt, SBool, SNone, STuple, Val, NONE
+from pyvc.values import HeapClass, INT, VAL, REF, SRef, SVal, SInt, SBool, SNone, STuple, Val, NONE, Ty
 from pyvc.contract import Contract
 
 FILE = 'boltons/dictutils.py'
@@ -57,8 +57,13 @@ def S(*names):
 
 
 def req(c):
+    return inv_wf(V(c))
+
+
+def size_facts(c):
+    """true of every real dict (trusted): len >= 0"""
     v = V(c)
-    return inv_wf(v) + [('dict facts (len >= 0)', z3.And(v.size >= 0, v.isize >= 0))]
+    return [('dict facts (len >= 0)', z3.And(v.size >= 0, v.isize >= 0))]
 
 
 def post_wf(c):
@@ -199,7 +204,48 @@ FUNCS = list(CONTRACTS)
 
 def make_engine(repo):
     from pyvc.engine import Engine
-    eng = Engine(repo, FILE, classes=CLASSES, contracts=CONTRACTS, consts=dict(CONSTS))
+    from .opaque_ext import EXTERNALS
+    eng = Engine(repo, FILE, classes=CLASSES, contracts=CONTRACTS, consts=dict(CONSTS), externals=dict(EXTERNALS))
     for c in ALL:
         eng.register_class(c)
     return eng
+
+
+# ---- update / __ior__ (any dict, iterable of pairs, keyword arguments) ---------------------------------------------------------
+from pyvc.contract import Loop  # noqa: E402
+
+
+def upd_setup(eng, st, variant=None):
+    d = S()(eng, st)
+    d['dict_or_iterable'] = SVal(z3.Const('arg_source', Val))
+    d['kw'] = SVal(z3.Const('arg_kw', Val))
+    return d
+
+
+def upd_inv(c):
+    o, n = V(c, c.old), V(c)
+    return [('inv.' + l, f) for l, f in inv_wf(n)] + [('inv objects unchanged', z3.And(n.i.t == o.i.t, n.iinv == o.iinv)),
+                                                      ]
+
+
+TRIVL = Loop(lambda c: [], heap=[])
+update = Contract('OneToOne.update', setup=upd_setup, requires=req,
+                  ensures=lambda c: post_wf(c) + [('inv objects unchanged', z3.And(V(c).i.t == V(c, c.old).i.t))], modifies=MOD,
+                  local_types=dict(keys_vals=Ty('val')),
+                  loops={'for val in dict_or_iterable.values()': TRIVL, 'for val in kw.values()': TRIVL,
+                         'for key, val in keys_vals': Loop(upd_inv, heap=list(KEYS))})
+
+
+def ior_setup(eng, st, variant=None):
+    d = S()(eng, st)
+    d['other'] = SVal(z3.Const('arg_other', Val))
+    return d
+
+
+ior = Contract('OneToOne.__ior__', setup=ior_setup, requires=req,
+               ensures=lambda c: post_wf(c) + [('returns self', c.r() == c.sv('self').t)], modifies=MOD)
+CONTRACTS['OneToOne.update'] = update
+CONTRACTS['OneToOne.__ior__'] = ior
+FUNCS += ['OneToOne.update', 'OneToOne.__ior__']
+for _c in CONTRACTS.values():
+    _c.facts = size_facts
